@@ -36,10 +36,13 @@ def main(argv=None):
     try:
         res = mod.run(ctx)
     except Exception:
-        # the harness itself crashed: that is a broken check, not a finding; fail loudly
-        traceback.print_exc()
-        print('CHECK-ERROR property=%s harness crashed' % pid)
-        return 2
+        # The harness crashed - typically because the implementation raised where the
+        # harness did not expect it. Fail closed: the correspondence could not be
+        # established, so the property is no longer shown to hold.
+        tb = traceback.format_exc()
+        print(tb)
+        res = C.Result(rule='harness crashed before completing', evaluations=0)
+        res.corr_errors = [('harness-crash', tb[-3000:])]
     checker = 'make -C coq Props/%s.vo && coqc -Q coq PyIpmi coq/Props/%s.v (Print Assumptions)' % (pid, pid)
     if a.tier == 'thorough' and ps.ok and not os.environ.get('VERIF_NO_COQCHK'):
         rc, out = C.sh(['coqchk', '-silent', '-o', '-Q', '.', 'PyIpmi', 'PyIpmi.Props.%s' % pid],
